@@ -80,25 +80,50 @@ func ruleW1(p *Prog, r *Report) {
 		r.Unknown("W1", "anchor", "-", "unresolved anchor: scan")
 		return
 	}
+	// every call of the token reader is dominated by a call that skips blanks, and that call sits in every
+	// loop the token reader's call sits in (it runs again before each token)
 	okSkip := false
-	for _, b := range scan.Blocks {
-		if !isLoopHeader(b) {
-			continue
-		}
-		body := b.Succs[0]
-		for _, in := range body.Instrs {
-			c, ok := in.(*ssa.Call)
-			if !ok || c.Call.StaticCallee() == nil {
-				continue
-			}
-			callee := c.Call.StaticCallee()
-			if callee.Name() == "skipWhitespace" {
-				okSkip = true
-			}
-			if callee.Name() == "parseToken" {
-				break
+	{
+		var skips, reads []*ssa.Call
+		for _, b := range scan.Blocks {
+			for _, in := range b.Instrs {
+				if c, ok := in.(*ssa.Call); ok && c.Call.StaticCallee() != nil {
+					switch c.Call.StaticCallee().Name() {
+					case "skipWhitespace":
+						skips = append(skips, c)
+					case "parseToken":
+						reads = append(reads, c)
+					}
+				}
 			}
 		}
+		inLoop := false
+		all := len(reads) > 0
+		for _, rd := range reads {
+			found := false
+			for _, sk := range skips {
+				before := sk.Block() == rd.Block() && blockOrder(sk) < blockOrder(rd) || sk.Block() != rd.Block() && sk.Block().Dominates(rd.Block())
+				if !before {
+					continue
+				}
+				sameLoops := true
+				for _, h := range scan.Blocks {
+					if isLoopHeader(h) && naturalLoop(h)[rd.Block()] {
+						inLoop = true
+						if !naturalLoop(h)[sk.Block()] {
+							sameLoops = false
+						}
+					}
+				}
+				if sameLoops {
+					found = true
+				}
+			}
+			if !found {
+				all = false
+			}
+		}
+		okSkip = all && inLoop
 	}
 	if okSkip {
 		r.OK("W1", "scan|skips blanks first", p.pos(scan.Pos()), "first call of every iteration", "", true)
